@@ -1808,3 +1808,63 @@ def c01j(F, R):
         R.ok("ecall", detail="kill_reg() accounts for ecalls itself")
     else:
         R.bad("ecall", "the value pass kills nothing at an `ecall`: `li a0, 10; li a7, 5; ecall; addi a7, a0, 0; ecall` is analysed as an exit ecall (a0 is still claimed to be 10 after ReadInt) and the code behind it is reported unreachable", f["sp"])
+
+
+@rule("C08", "R4.scalar-offsets-respect-operand-order", floor=2)
+@rule("C01", "C01.k.scalar-offsets-respect-operand-order", floor=2)
+def c01k(F, R):
+    """`register + k` folding: with the register-relative operand on the left any scalar operator applies to k; with the constant on the left only a commutative operator (add) keeps the form, since `c - (r + k)` is not `r + (c - k)`"""
+    rp = [q for q in F.fns if q.endswith("analysis::available::rule_perform_math_ops")]
+    if not rp:
+        raise Anchor("rule_perform_math_ops not found")
+    f = F.fn(rp[0])
+    AV = "riscv_analysis::analysis::available::AvailableValue::"
+    n = 0
+    for m in find_matches(f["hir"]["value"]):
+        sc = peel(m["scrut"])
+        if sc.get("k") != "Tup" or len(sc["elems"]) != 2:
+            continue
+        for arm in m["arms"]:
+            alts = arm["pat"]["pats"] if arm["pat"].get("k") == "POr" else [arm["pat"]]
+            for alt in alts:
+                if alt.get("k") != "PTuple" or len(alt["pats"]) != 2:
+                    continue
+                kinds = []
+                for side in alt["pats"]:
+                    vs = [short(x_["res"]) for x_ in walk(side) if x_.get("k") in ("PTupleStruct", "PStruct", "PPath") and (x_.get("res") or "").startswith(AV)]
+                    kinds.append(vs[0] if vs else None)
+                if set(kinds) != {"Constant", "OriginalRegisterWithScalar"} and set(kinds) != {"Constant", "RegisterWithScalar"}:
+                    continue
+                n += 1
+                const_left = kinds[0] == "Constant"
+                uses_scalar = mentions_call(arm["body"], "scalar_op")
+                restricted = any(x.get("k") == "Path" and (x.get("res") or "").endswith("MathOp::Add") for x in walk(arm["body"])) or \
+                    any(x.get("k") == "Path" and (x.get("res") or "").endswith("MathOp::Add") for x in walk(arm.get("guard") or {}))
+                key = f"{'const' if const_left else 'reg'}-left"
+                if not const_left:
+                    R.ok(key, detail=f"({kinds[0]}, {kinds[1]}): any scalar operator applies to the offset", where=loc(arm))
+                elif uses_scalar and not restricted:
+                    R.bad(key, f"the arm ({kinds[0]}, {kinds[1]}) folds every scalar operator into `register + k`: `li t0,16; sub t1,t0,sp` is claimed to be `sp + 16` while the machine computes `16 - sp`", loc(arm))
+                else:
+                    R.ok(key, detail=f"({kinds[0]}, {kinds[1]}): only under `MathOp::Add`", where=loc(arm))
+    if n < 2:
+        R.bad("shape", f"UNEXTRACTABLE: expected the (register-relative, constant) and (constant, register-relative) arms in rule_perform_math_ops, found {n}", f["sp"])
+
+
+@rule("C02", "C02.g.unknown-ecall-reads-its-arguments", floor=1)
+def c02g(F, R):
+    """an ecall whose number the value analysis does not know may read any argument register: liveness must assume it does, or the argument set-up before a computed service number is reported as an unused value"""
+    f = _livepass_run(F)
+    hit = None
+    for n in walk(f["hir"]["value"], pats=False):
+        if n.get("k") == "MethodCall" and n["name"] in ("unwrap_or_default", "unwrap_or", "unwrap_or_else", "map_or", "map_or_else") and mentions_call(n["recv"], "known_ecall_signature"):
+            hit = n
+    if hit is None:
+        R.bad("fallback", "UNEXTRACTABLE: LivenessPass no longer reads `known_ecall_signature()` with a fallback", f["sp"])
+        return
+    conservative = any(mentions_call(a, nm) or any(x.get("k") == "Path" and short(x.get("res") or "") == nm for x in walk(a, pats=False))
+                       for a in hit["args"] for nm in ("argument_set", "caller_saved_set", "all_writable_set"))
+    if conservative:
+        R.ok("fallback", detail="unknown ecall number: all argument registers are treated as read", where=loc(hit))
+    else:
+        R.bad("fallback", f"for an ecall whose number is unknown liveness assumes no argument is read (`{hit['name']}`): `mv a7, a0; li a0, 65; ecall` reports `li a0, 65` as an unused value", loc(hit))
